@@ -222,6 +222,7 @@ class Std:
                 return _SilentService()
             if d == b'sync:':
                 svc = sim.SyncService(self.fs, packetize=self.packetize, fail=self.fail, bad_id=self.bad_id)
+                svc.truncate_recv = getattr(self, 'truncate_recv', None)
                 self.sync_services.append(svc)
                 return svc
             for pre in (b'shell:', b'exec:', b'root:', b'reboot:'):
